@@ -16,6 +16,7 @@ import (
 	proto "github.com/kubewharf/kubebrain-client/api/v2rpc"
 
 	"github.com/kubewharf/kubebrain/pkg/backend"
+	"github.com/kubewharf/kubebrain/pkg/backend/coder"
 	"github.com/kubewharf/kubebrain/pkg/storage"
 
 	"kbverif/lib"
@@ -312,6 +313,11 @@ func mixedRun(w *lib.Writer, rnd *lib.Rand, scratch string, cacheSize int) {
 // compaction (Compact(0) or Compact(far above)) is issued inside the retry window; further writes follow. After
 // the retry queue has drained and a sentinel write per client has arrived, list@R0 + events must be the final list.
 // The slots are not known from the responses here: the case (KLf) is evaluated by the oracle only.
+var verbNames = []string{"create", "update", "delete", "create-over-tombstone"}
+
+// verb 3 = create of a key that was created and deleted before (its index record still carries the deletion flag):
+// the creator's first batch (put-if-absent) fails on that record and it issues a SECOND batch that takes the record
+// over; the fault is placed on that second commit.
 // second: 0 = no further fault; 1 = the asynchronous repair commit for that write is answered "uncertain" too and
 // does NOT land; 2 = the repair commit fails with a definite error (then no compaction is placed in the window:
 // the commit that is hit must be the repair's).
@@ -329,8 +335,12 @@ func faultRun(w *lib.Writer, rnd *lib.Rand, scratch string, verb int, applied bo
 	var armed int32
 	var fired int32
 	var armed2, fired2 int32
+	var skip int32 // commits of the armed operation that pass before the fault
 	mainGID := lib.GoID()
 	wrap := &lib.Wrap{KvStorage: inner, CommitFault: func() (error, bool) {
+		if atomic.LoadInt32(&armed) == 1 && atomic.AddInt32(&skip, -1) >= 0 {
+			return nil, false // an earlier commit of the armed operation passes
+		}
 		if atomic.CompareAndSwapInt32(&armed, 1, 0) {
 			atomic.AddInt32(&fired, 1)
 			if second != 0 {
@@ -354,7 +364,7 @@ func faultRun(w *lib.Writer, rnd *lib.Rand, scratch string, verb int, applied bo
 	defer retire()
 	kn := &known{m: map[string]uint64{}}
 	outcomes := map[string]bool{"engine=memkv": true, "fault": true,
-		fmt.Sprintf("uncertain-%s-applied=%v", []string{"create", "update", "delete"}[verb], applied): true,
+		fmt.Sprintf("uncertain-%s-applied=%v", verbNames[verb], applied): true,
 		fmt.Sprintf("compact-big=%v", compactBig):                                               true}
 	if second != 0 {
 		outcomes[fmt.Sprintf("second-fault-on-repair=%s", []string{"", "uncertain-not-applied", "definite-error"}[second])] = true
@@ -393,6 +403,11 @@ func faultRun(w *lib.Writer, rnd *lib.Rand, scratch string, verb int, applied bo
 	if verb != 0 {
 		trev = mustCreate(target, "t0")
 	}
+	if verb == 3 {
+		if resp, err := b.Delete(ctx, &proto.DeleteRequest{Key: target, Revision: trev}); (err != nil || !resp.Succeeded) && fail == "" {
+			fail = fmt.Sprintf("delete %q failed: %v", target, err)
+		}
+	}
 	mustCreate(other, "o0")
 	for i := 0; i < 1+rnd.Intn(3); i++ {
 		doOp(b, rnd, kn, "i", i)
@@ -409,9 +424,14 @@ func faultRun(w *lib.Writer, rnd *lib.Rand, scratch string, verb int, applied bo
 		clients = append(clients, x)
 	}
 	// the write with the unknown outcome
+	if verb == 3 {
+		atomic.StoreInt32(&skip, 1)
+	}
 	atomic.StoreInt32(&armed, 1)
 	var ferr error
 	switch verb {
+	case 3:
+		_, ferr = b.Create(ctx, &proto.CreateRequest{Key: target, Value: []byte("t-uncertain")})
 	case 0:
 		_, ferr = b.Create(ctx, &proto.CreateRequest{Key: target, Value: []byte("t-uncertain")})
 	case 1:
@@ -489,7 +509,7 @@ func faultRun(w *lib.Writer, rnd *lib.Rand, scratch string, verb int, applied bo
 		c := lib.Case{Kind: "list-then-watch/uncertain-write+compaction",
 			Coq: lib.App("KLf", lib.Bytes(x.P), lib.N(x.R0), coqStore(x.kv0), lib.List(es), lib.N(Rf), coqStore(kvf)),
 			JSON: map[string]interface{}{"prefix": string(x.P), "initial_revision": c0, "R0": x.R0, "first_list_size": len(x.kv0),
-				"uncertain_op": []string{"create", "update", "delete"}[verb], "applied": applied, "compact_far_above": compactBig,
+				"uncertain_op": verbNames[verb], "applied": applied, "compact_far_above": compactBig,
 				"second_fault_on_repair": []string{"none", "uncertain, not applied", "definite error"}[second],
 				"event_revisions": hs, "final_revision": Rf, "final_list_size": len(kvf), "watch_refused": x.werr != nil},
 			Trivial: x.werr != nil}
@@ -706,6 +726,154 @@ func partitionedRun(w *lib.Writer, rnd *lib.Rand, scratch string, compactBetween
 	c := x.caseKLw("list-then-watch/partitioned-stream", slots, got, lists, outcomes,
 		map[string]interface{}{"initial_revision": c0, "compaction_between_getpartitions_and_stream": compactBetween,
 			"end_marker_refusals": refusals, "split_in_two_partitions": split})
+	w.Add(c)
+	if fail != "" {
+		w.Fail(lib.ImplFailure{CaseID: w.Len() - 1, What: fail, Case: c.JSON})
+	}
+}
+
+// ---------------------------------------------------------------- a partition border inside the versions of one key
+
+func listLimit(b backend.Backend, P []byte, rev uint64, limit int64) ([]kv, error) {
+	resp, err := b.List(context.Background(), &proto.RangeRequest{Key: P, End: backend.PrefixEnd(P), Revision: rev, Limit: limit})
+	if err != nil {
+		return nil, err
+	}
+	out := make([]kv, len(resp.Kvs))
+	for i, x := range resp.Kvs {
+		out[i] = kv{x.Key, x.Value, x.Revision}
+	}
+	return out, nil
+}
+
+// splitVersionRun: the engine reports two partitions whose border is a VERSION record of key K (K has an older
+// version on the left of it) — what a TiKV region split does. List-then-watch on the prefix, then K is deleted and
+// a compaction runs; the later reads are taken both through the partitioned scan (List) and through the
+// unpartitioned one (List with a limit). Replaying the events over the first list must give every one of them.
+func splitVersionRun(w *lib.Writer, rnd *lib.Rand, scratch string, engine string) {
+	c0 := uint64(100)
+	K := []byte("/r/a/m")
+	cd := coder.NewNormalCoder()
+	border := cd.EncodeObjectKey(K, c0+3) // K is written at c0+2 (create) and c0+3 (update)
+	var store storage.KvStorage
+	var closer func()
+	switch engine {
+	case lib.EngTiKV:
+		kvs, cl, err := lib.NewTiKVSplit(border)
+		if err != nil {
+			w.Fail(lib.ImplFailure{CaseID: -1, What: "engine: " + err.Error()})
+			return
+		}
+		store, closer = kvs, cl
+	default:
+		inner, cl, err := lib.NewEngine(lib.EngMem, scratch)
+		if err != nil {
+			w.Fail(lib.ImplFailure{CaseID: -1, What: "engine: " + err.Error()})
+			return
+		}
+		closer = cl
+		store = &lib.Wrap{KvStorage: inner, Partitions: func(start, end []byte) []storage.Partition {
+			if bytes.Compare(start, border) < 0 && bytes.Compare(border, end) < 0 {
+				return []storage.Partition{{Start: start, End: border}, {Start: border, End: end}}
+			}
+			return []storage.Partition{{Start: start, End: end}}
+		}}
+	}
+	defer closer()
+	b := backend.NewBackend(store, backend.Config{Prefix: "/r", Identity: "c06", WatchCacheSize: 0}, &lib.NopMetrics{})
+	b.SetCurrentRevision(c0)
+	defer retire()
+	P := []byte("/r/a/")
+	outcomes := map[string]bool{"engine=" + engine: true, "partition-border-on-a-version-record": true}
+	var slots []slot
+	nops := uint64(0)
+	fail := ""
+	ctx := context.Background()
+	caughtUp := func() {
+		want := c0 + nops
+		if !waitUntil(20*time.Second, func() bool { return b.GetCurrentRevision() >= want }) && fail == "" {
+			fail = fmt.Sprintf("committed revision %d never reached %d", b.GetCurrentRevision(), want)
+		}
+	}
+	put := func(k []byte, v string, exp uint64, create bool) uint64 {
+		nops++
+		var rev uint64
+		var ok bool
+		var err error
+		verb := 1
+		if create {
+			verb = 0
+			var resp *proto.CreateResponse
+			resp, err = b.Create(ctx, &proto.CreateRequest{Key: k, Value: []byte(v)})
+			if err == nil {
+				rev, ok = resp.Header.Revision, resp.Succeeded
+			}
+		} else {
+			var resp *proto.UpdateResponse
+			resp, err = b.Update(ctx, &proto.UpdateRequest{Kv: &proto.KeyValue{Key: k, Value: []byte(v), Revision: exp}})
+			if err == nil {
+				rev, ok = resp.Header.Revision, resp.Succeeded
+			}
+		}
+		if (err != nil || !ok) && fail == "" {
+			fail = fmt.Sprintf("write of %q failed: %v", k, err)
+		}
+		if ok {
+			slots = append(slots, slot{rev: rev, prev: exp, valid: true, verb: verb, key: k, val: []byte(v)})
+		}
+		caughtUp()
+		return rev
+	}
+	del := func(k []byte, exp uint64, val string) {
+		nops++
+		resp, err := b.Delete(ctx, &proto.DeleteRequest{Key: k, Revision: exp})
+		if (err != nil || !resp.Succeeded) && fail == "" {
+			fail = fmt.Sprintf("delete of %q failed: %v", k, err)
+		} else if err == nil {
+			slots = append(slots, slot{rev: resp.Header.Revision, prev: exp, valid: true, verb: 2, key: k, val: []byte(val)})
+		}
+		caughtUp()
+	}
+	put([]byte("/r/a/c"), "c1", 0, true) // c0+1, left of the border
+	r1 := put(K, "m1", 0, true)          // c0+2
+	r2 := put(K, "m2", r1, false)        // c0+3: the border is this record
+	put([]byte("/r/a/x"), "x1", 0, true) // right of the border
+	if r2 != c0+3 && fail == "" {
+		fail = fmt.Sprintf("revisions not as planned: K updated at %d, border built for %d", r2, c0+3)
+	}
+	x, err := startLW(b, P, 0)
+	if err != nil {
+		w.Fail(lib.ImplFailure{CaseID: -1, What: "first list failed: " + err.Error()})
+		return
+	}
+	if rnd.Bool() {
+		put([]byte("/r/a/c"), "c2", c0+1, false)
+	}
+	del(K, r2, "m2")
+	if _, err := b.Compact(ctx, 0); err == nil {
+		outcomes["compacted"] = true
+	}
+	put([]byte("/r/a/y"), "y1", 0, true)
+	if rnd.Bool() {
+		b.Compact(ctx, 0)
+	}
+	sort.Slice(slots, func(i, j int) bool { return slots[i].rev < slots[j].rev })
+	if !x.waitRev(lastMatching(slots, x), 15*time.Second) {
+		outcomes["events-missing-after-15s"] = true
+	}
+	got := x.got()
+	cur := b.GetCurrentRevision()
+	var lists []lst
+	if _, kvs, err := list(b, P, cur); err == nil {
+		lists = append(lists, lst{cur, kvs}) // partitioned scan
+	}
+	if kvs, err := listLimit(b, P, cur, 1000); err == nil {
+		lists = append(lists, lst{cur, kvs}) // unpartitioned scan (limit)
+		outcomes["limited-list"] = true
+	}
+	x.stop()
+	c := x.caseKLw("list-then-watch/border-on-version-record", slots, got, lists, outcomes,
+		map[string]interface{}{"engine": engine, "initial_revision": c0, "border": fmt.Sprintf("%q at revision %d", K, c0+3)})
 	w.Add(c)
 	if fail != "" {
 		w.Fail(lib.ImplFailure{CaseID: w.Len() - 1, What: fail, Case: c.JSON})
